@@ -1,13 +1,21 @@
 /-
   C09 — every emitted problem is well-formed, well-typed, self-contained TFF.
-  Proved here: every problem produced by either decomposition contains exactly one conjecture,
-  and the declaration blocks list exactly the predicates / symbols / placeholders that occur
-  (by construction of `Problem.tptpText`). Name hygiene (`Hygienic`) is NOT provable on the
-  unchanged tree: see known_findings.jsonl (identifier classes that make the output ill-typed);
-  every emitted text is additionally run through tptp4X (syntax oracle) by the check.
+  Proved here: (1) every problem produced by either decomposition contains exactly one conjecture;
+  (2) `problem_well_typed`: every closed formula of a problem, as a TFF tree (C06), type-checks
+  against the problem's own declarations (predicates at their arity over `general`, symbolic
+  constants, placeholders at their sort, `$int` built-ins), every variable bound by a typed
+  quantifier; the declarations are exactly what occurs, by construction; (3) formula names are
+  pairwise distinct after `create_unique_formula_names` and in every decomposed problem;
+  (4) `hygienic_iff`: the model-side hygiene analysis is exact - it is empty iff no declared
+  identifier begins with `_`, declared identifiers are pairwise distinct *as mangled strings*,
+  none is a preamble identifier, and formula names are distinct. What is NOT provable on the
+  unchanged tree is that the analysis is always empty: three identifier classes make the mangled
+  output ill-typed (known findings, with kernel-checked counterexamples below).
 -/
 import AnthemModel.Proofs.Decompose
 import AnthemModel.Model.TptpFmt
+import AnthemModel.Proofs.TffTyping
+import AnthemModel.Proofs.NaturalFresh
 namespace Anthem.C09
 
 theorem conjectures_ax_conj (name : String) (ax : List AnnF) (c : AnnF)
@@ -56,6 +64,198 @@ theorem one_conjecture (p : Problem) (d : Decomposition) :
   cases d
   · exact one_conjecture_independent p
   · exact one_conjecture_sequential p
+
+/-! ## typing against the problem's own declarations -/
+
+/-- what `Display for Problem` declares -/
+def Problem.sig (p : Problem) : TSig := ⟨p.preds, p.symbols, p.fcs⟩
+
+/-- the declarations cover everything that occurs (they are computed from the formulas) -/
+theorem declared_all (p : Problem) : ∀ a ∈ p.formulas, a.formula.Declared (Problem.sig p) := by
+  intro a ha
+  refine ⟨fun q hq => ?_, fun s hs => ?_, fun c hc => ?_⟩
+  · show q ∈ p.formulas.foldl (fun acc a => ext acc a.formula.preds) []
+    rw [mem_foldl_ext]; exact Or.inr ⟨a, ha, hq⟩
+  · show s ∈ p.formulas.foldl (fun acc a => ext acc a.formula.symbols) []
+    rw [mem_foldl_ext]; exact Or.inr ⟨a, ha, hs⟩
+  · show c ∈ p.formulas.foldl (fun acc a => ext acc a.formula.fcs) []
+    rw [mem_foldl_ext]; exact Or.inr ⟨a, ha, hc⟩
+
+/-- … and nothing else is declared. -/
+theorem declared_only (p : Problem) :
+    (∀ q ∈ p.preds, ∃ a ∈ p.formulas, q ∈ a.formula.preds) ∧
+    (∀ s ∈ p.symbols, ∃ a ∈ p.formulas, s ∈ a.formula.symbols) ∧
+    (∀ c ∈ p.fcs, ∃ a ∈ p.formulas, c ∈ a.formula.fcs) := by
+  refine ⟨fun q hq => ?_, fun s hs => ?_, fun c hc => ?_⟩
+  · have : q ∈ p.formulas.foldl (fun acc a => ext acc a.formula.preds) [] := hq
+    rw [mem_foldl_ext] at this; simpa using this
+  · have : s ∈ p.formulas.foldl (fun acc a => ext acc a.formula.symbols) [] := hs
+    rw [mem_foldl_ext] at this; simpa using this
+  · have : c ∈ p.formulas.foldl (fun acc a => ext acc a.formula.fcs) [] := hc
+    rw [mem_foldl_ext] at this; simpa using this
+
+/-- **Well-typedness**: every closed formula of a problem type-checks, as a TFF tree, against the
+    problem's declarations, with every variable bound by a typed quantifier. -/
+theorem problem_well_typed (p : Problem) (a : AnnF) (ha : a ∈ p.formulas) (hclosed : ∀ v, ¬ a.formula.FV v) :
+    (tr a.formula).WT (Problem.sig p) (fun _ => False) :=
+  tr_WT (Problem.sig p) a.formula _ (fun v hv => hclosed v hv) (declared_all p a ha)
+
+/-! ## formula names -/
+
+theorem uniqueNames_nodup (p : Problem) : (p.uniqueNames.formulas.map (·.name)).Nodup := by
+  unfold Problem.uniqueNames
+  simp only [List.map_map]
+  suffices h : ∀ (l : List AnnF) (k : Nat),
+      ((indexFrom k l).map ((·.name) ∘ fun (x : Nat × AnnF) =>
+        ({ x.2 with name := "formula_" ++ toString x.1 ++ "_" ++ x.2.name } : AnnF))).Nodup ∧
+      ∀ s ∈ (indexFrom k l).map ((·.name) ∘ fun (x : Nat × AnnF) =>
+        ({ x.2 with name := "formula_" ++ toString x.1 ++ "_" ++ x.2.name } : AnnF)),
+        ∃ i n, k ≤ i ∧ s = "formula_" ++ toString i ++ "_" ++ n from (h p.formulas 0).1
+  intro l
+  induction l with
+  | nil => intro k; simp [indexFrom]
+  | cons a l ih =>
+    intro k
+    obtain ⟨h1, h2⟩ := ih (k + 1)
+    simp only [indexFrom, List.map_cons, Function.comp]
+    refine ⟨List.nodup_cons.mpr ⟨?_, h1⟩, ?_⟩
+    · intro hm
+      obtain ⟨i, n, hi, e⟩ := h2 _ hm
+      -- the index is determined by the name
+      have e' : (toString k ++ "_" ++ a.name).toList = (toString i ++ "_" ++ n).toList := by
+        have := congrArg String.toList e
+        simp only [String.append_assoc, String.toList_append] at this ⊢
+        exact List.append_cancel_left this
+      simp only [String.toList_append, String.reduceToList, List.append_assoc, List.cons_append,
+        List.nil_append] at e'
+      have := split_at_sep (digits_no_underscore k) (digits_no_underscore i) e'
+      have : k = i := Nat.repr_injective (String.ext_iff.mpr (by simpa using this))
+      omega
+    · intro s hs
+      rcases List.mem_cons.mp hs with rfl | hs
+      · exact ⟨k, a.name, Nat.le_refl _, rfl⟩
+      · obtain ⟨i, n, hi, e⟩ := h2 s hs
+        exact ⟨i, n, by omega, e⟩
+
+theorem setLastAxiom_names (l : List AnnF) : (setLastAxiom l).map (·.name) = l.map (·.name) := by
+  induction l with
+  | nil => rfl
+  | cons a l ih =>
+    cases l with
+    | nil => rfl
+    | cons b rest => simp only [setLastAxiom, List.map_cons, List.cons.injEq, true_and]; exact ih
+
+theorem seqLoop_names (name : String) : ∀ (cs : List AnnF) (i : Nat) (acc : List AnnF),
+    (acc.map (·.name) ++ cs.map (·.name)).Nodup →
+    ∀ P ∈ seqLoop name i acc cs, (P.formulas.map (·.name)).Nodup := by
+  intro cs
+  induction cs with
+  | nil => intro i acc _ P hP; simp [seqLoop] at hP
+  | cons c cs ih =>
+    intro i acc hnd P hP
+    simp only [seqLoop, List.mem_cons] at hP
+    have hacc' : ((setLastAxiom acc ++ [c]).map (·.name) ++ cs.map (·.name)).Nodup := by
+      simp only [List.map_append, setLastAxiom_names, List.map_cons, List.map_nil, List.append_assoc,
+        List.cons_append, List.nil_append]
+      simpa using hnd
+    rcases hP with rfl | hP
+    · exact (List.nodup_append.mp hacc').1
+    · exact ih (i + 1) _ hacc' P hP
+
+theorem roles_split_names (p : Problem) (h : (p.formulas.map (·.name)).Nodup) :
+    (p.axioms.map (·.name) ++ p.conjectures.map (·.name)).Nodup := by
+  have hperm : (p.formulas.filter (·.role = .axiom) ++ p.formulas.filter (fun a => !decide (a.role = .axiom))).Perm p.formulas :=
+    List.filter_append_perm _ _
+  have hc : p.conjectures = p.formulas.filter (fun a => !decide (a.role = .axiom)) := by
+    unfold Problem.conjectures
+    apply List.filter_congr
+    intro a _
+    cases a.role <;> simp
+  rw [← List.map_append, hc]
+  exact (List.Perm.nodup_iff (hperm.map _)).mpr h
+
+/-- **Formula names are pairwise distinct in every decomposed problem** of a problem whose formula
+    names are distinct (as they are after `create_unique_formula_names`). -/
+theorem decomposed_names_nodup (p : Problem) (h : (p.formulas.map (·.name)).Nodup) (d : Decomposition) :
+    ∀ P ∈ p.decompose d, (P.formulas.map (·.name)).Nodup := by
+  have hsplit := roles_split_names p h
+  cases d with
+  | sequential => exact seqLoop_names p.name p.conjectures 0 p.axioms hsplit
+  | independent =>
+    intro P hP
+    simp only [Problem.decompose, Problem.decomposeIndependent, List.mem_map, Prod.exists] at hP
+    obtain ⟨i, c, hic, rfl⟩ := hP
+    have hc : c ∈ p.conjectures := mem_indexFrom.mpr ⟨i, hic⟩
+    simp only [List.map_append, List.map_cons, List.map_nil]
+    rw [List.nodup_append] at hsplit ⊢
+    refine ⟨hsplit.1, by simp, ?_⟩
+    intro x hx y hy
+    simp only [List.mem_singleton] at hy
+    subst hy
+    exact hsplit.2.2 x hx _ (List.mem_map.mpr ⟨c, hc, rfl⟩)
+
+/-! ## the hygiene analysis is exact -/
+
+theorem dupNames_nil_iff (l : List String) : dupNames l = [] ↔ l.Nodup := by
+  induction l with
+  | nil => simp [dupNames]
+  | cons x xs ih =>
+    simp only [dupNames, List.nodup_cons]
+    split
+    · rename_i hm
+      constructor
+      · intro h
+        exfalso
+        unfold ins at h
+        split at h
+        · rename_i hx; rw [h] at hx; cases hx
+        · simp at h
+      · intro h; exact absurd hm h.1
+    · rename_i hm
+      rw [ih]; exact ⟨fun h => ⟨hm, h⟩, fun h => h.2⟩
+
+/-- **Exactness of the hygiene analysis.** -/
+theorem hygienic_iff (p : Problem) :
+    p.hygieneIssues = [] ↔
+      (∀ n ∈ p.preds.map (·.symbol) ++ p.symbols ++ p.fcs.map tptpVar, n.toList.head? ≠ some '_') ∧
+      (p.preds.map (·.symbol) ++ p.symbols ++ p.fcs.map tptpVar).Nodup ∧
+      (∀ n ∈ p.preds.map (·.symbol) ++ p.symbols ++ p.fcs.map tptpVar, n ∉ preambleNames) ∧
+      (p.formulas.map (·.name)).Nodup := by
+  unfold Problem.hygieneIssues
+  simp only [List.append_eq_nil_iff]
+  rw [← dupNames_nil_iff, ← dupNames_nil_iff]
+  constructor
+  · rintro ⟨⟨⟨h1, h2⟩, h3⟩, h4⟩
+    refine ⟨?_, ?_, ?_, ?_⟩
+    · intro n hn hh
+      split at h1
+      · rename_i he
+        have : n ∈ (p.preds.map (·.symbol) ++ p.symbols ++ p.fcs.map tptpVar).filter
+            (fun n => n.toList.head? = some '_') := List.mem_filter.mpr ⟨hn, by simpa using hh⟩
+        rw [List.isEmpty_iff.mp he] at this; cases this
+      · cases h1
+    · split at h2
+      · rename_i he; exact List.isEmpty_iff.mp he
+      · cases h2
+    · intro n hn hpre
+      split at h3
+      · cases h3
+      · rename_i hany
+        exact hany (List.any_eq_true.mpr ⟨n, hn, by simpa using hpre⟩)
+    · split at h4
+      · rename_i he; exact List.isEmpty_iff.mp he
+      · cases h4
+  · rintro ⟨h1, h2, h3, h4⟩
+    refine ⟨⟨⟨?_, ?_⟩, ?_⟩, ?_⟩
+    · rw [if_pos]
+      rw [List.isEmpty_iff, List.filter_eq_nil_iff]
+      intro n hn; simpa using h1 n hn
+    · rw [if_pos]; rw [h2]; rfl
+    · rw [if_neg]
+      intro hany
+      obtain ⟨n, hn, hpre⟩ := List.any_eq_true.mp hany
+      exact h3 n hn (by simpa using hpre)
+    · rw [if_pos]; rw [h4]; rfl
 
 /-- Counterexample to unconditional well-typedness (model level, kernel-evaluated): a predicate
     used at two arities is declared twice under one name. Known finding. -/
